@@ -340,7 +340,7 @@ func checkC05(c *core.Ctx) []core.Floor {
 // ---------- C06 ----------
 
 func checkC06(c *core.Ctx) []core.Floor {
-	c.Rule = "up to three tables of 0-12 rows sharing column names, with duplicate and missing join keys and empty sides; chains of 1-2 joins mixing INNER (with and without the keyword), LEFT, RIGHT, ON = key equality optionally combined with further comparisons, self-joins under two aliases, qualifier = alias when given else table name; compared as multisets with join-by-definition over the model (NULL padding explicit). Ambiguity probes: an unqualified name that exists on both sides (of two or three tables, filled or empty) must be rejected with an error wherever it stands: bare in the select list, inside a comparison or a later AND/OR term of the select list, in WHERE (first or later term), in ON (first or later term), in ORDER BY, as COUNT's argument, in GROUP BY. Distinct = query text; non-trivial = non-empty expected result or an ambiguity probe."
+	c.Rule = "up to three tables of 0-12 rows sharing column names (one case in 25 also joins two tables of 220-420 rows with many duplicate keys: tens of thousands of pairs), with duplicate and missing join keys and empty sides; chains of 1-2 joins mixing INNER (with and without the keyword), LEFT, RIGHT, ON = key equality optionally combined with further comparisons, self-joins under two aliases, qualifier = alias when given else table name; compared as multisets with join-by-definition over the model (NULL padding explicit). Ambiguity probes: an unqualified name that exists on both sides (of two or three tables, filled or empty) must be rejected with an error wherever it stands: bare in the select list, inside a comparison or a later AND/OR term of the select list, in WHERE (first or later term), in ON (first or later term), in ORDER BY, as COUNT's argument, in GROUP BY. Distinct = query text; non-trivial = non-empty expected result or an ambiguity probe."
 	c.Assume = []string{"join keys are non-NULL (the property says so); a side that may have been NULL-padded by an earlier outer join is only compared with = against a stored column"}
 	drv := mustDriver(c, false)
 	n := 100
@@ -397,6 +397,32 @@ func checkC06(c *core.Ctx) []core.Floor {
 			sc.texts = append(sc.texts, model.RenderN(q, randStyle(r)))
 			sc.tags = append(sc.tags, "joins_"+seq+self)
 			sc.expectErr = append(sc.expectErr, false)
+		}
+		if i%25 == 3 {
+			// two tables of hundreds of rows with many duplicate keys: the
+			// join has to look at tens of thousands of pairs
+			for bi, name := range []string{"big1", "big2"} {
+				ct, ins := g.ShapedTable(name, r.Range(260, 420)-40*bi, []string{"b", "s", "f"})
+				sc.setup = append(sc.setup, ct, ins)
+				applyAll(m, []*proto.Stmt{ct, ins})
+			}
+			for k := 0; k < 4; k++ {
+				l, rt := "big1", "big2"
+				if k == 3 {
+					l, rt = "big2", "big1"
+				}
+				lc, rc := []string{"a", "a", "u", "a"}[k], []string{"a", "a", "a", "u"}[k]
+				q := &proto.NStmt{Kind: "select", Star: true, From: []proto.NTable{{Name: l}, {Name: rt, Join: []string{"inner", "inner", "left", "inner"}[k],
+					On: &proto.Cond{Op: "=", LHS: model.QColOp(l, lc), RHS: model.QColOp(rt, rc)}}}}
+				if k == 1 {
+					q.From[0].Alias, q.From[1].Alias = "x", "y"
+					q.From[1].On = &proto.Cond{Op: "=", LHS: model.QColOp("x", lc), RHS: model.QColOp("y", rc)}
+				}
+				sc.queries = append(sc.queries, q)
+				sc.texts = append(sc.texts, model.RenderN(q, randStyle(r)))
+				sc.tags = append(sc.tags, "joins_of_hundreds_of_rows")
+				sc.expectErr = append(sc.expectErr, false)
+			}
 		}
 		// ambiguity probes
 		for k := 0; k < 10; k++ {
